@@ -268,3 +268,14 @@ def decision_table(I, out, fn, classify, names):
         else:
             return None, "at %s: %d alternatives apply" % (env, len(hit))
     return table, None
+
+
+def borrow_rules(rep, run_other, from_prefix, to_rule):
+    """Run rule functions of a sibling property module and re-label the obligations they record (a necessary
+    condition shared by two properties is checked by both, so that each property's check stands on its own)."""
+    n0 = len(rep.obligations)
+    run_other()
+    for o in rep.obligations[n0:]:
+        if o["rule"].startswith(from_prefix):
+            o["key"] = o["key"].replace(o["rule"], to_rule, 1)
+            o["rule"] = to_rule
